@@ -1,5 +1,6 @@
 import Carquet.Util
 import Driver.Ops.Crc
+import Driver.Ops.Schema
 /-
 Line-protocol driver.  One harness line in (operation, inputs, and what the real code
 returned), one verdict line out.  See Carquet/Util.lean for the syntax.
@@ -7,7 +8,8 @@ returned), one verdict line out.  See Carquet/Util.lean for the syntax.
 open Carquet.Util
 
 def handlers : List (Line → Option Verdict) :=
-  [ Driver.Ops.Crc.handle ]
+  [ Driver.Ops.Crc.handle,
+    Driver.Ops.Schema.handle ]
 
 def stepLine (s : String) : String :=
   match parseLine s with
